@@ -455,11 +455,15 @@ static void op_walk(int limit, bool newmem) {
     bool first = true;
     while (limit < 0 || i < limit) {
         vf_cpu_arm_prop("C03", "qtreetbl_getnext", 2000);
+        /* a copying walk whose step could not allocate may repeat that step with the same cursor (C03/C04 runs: one step in twelve) */
+        bool inject = newmem && (P == 3 || P == 4) && vf_oom_k == 0 && rng_chance(&R, 1, 12);
+        if (inject) { vf_oom_k = 1 + (long)rng_below(&R, 2); vf_oom_all = false; }
         oom_begin();
         errno = 0;
         bool r = T->getnext(T, &obj, newmem);
         int ge = errno;
         long hits = oom_end();
+        if (inject && hits && !r && ge == ENOMEM) { vf_log("getnext could not allocate: the step is repeated with the same cursor"); vf_count("walk_steps_retried_after_allocation_failure", 1); errno = 0; r = T->getnext(T, &obj, newmem); ge = errno; hits = 0; }
         vf_cpu_disarm();
         if (hits) { OOMCTX = "getnext"; if (!r && ge == ENOMEM) { vf_count("oom_reported_failure", 1); pending_walk = true; return; } vf_count("oom_completed_despite_failure", 1); }
         if (first) {
@@ -964,11 +968,16 @@ static void phase_oom(int U) {
                     vf_log("walk(newmem) with allocation %ld failing", k);
                     while (1) { long before = vf_alloc_calls; if (k - done >= 1 && k - done <= 2) { vf_oom_k = k - done; vf_oom_all = all; }
                         oom_begin(); errno = 0; bool r = T->getnext(T, &obj, true); int ge = errno; long hits = oom_end(); done += vf_alloc_calls - before;
-                        if (hits) { OOMCTX = "getnext"; if (!r && ge == ENOMEM) { vf_count("oom_reported_failure", 1); reported = true; break; } vf_count("oom_completed_despite_failure", 1); }
+                        if (hits) { OOMCTX = "getnext"; if (!r && ge == ENOMEM) { vf_count("oom_reported_failure", 1); reported = true;
+                                /* the failed step may be repeated with the same cursor: the walk must then go on as if nothing had happened */
+                                vf_log("retry of the failed getnext with the same cursor"); errno = 0; r = T->getnext(T, &obj, true); vf_count("oom_walk_steps_retried", 1);
+                                if (!r && i < MN) { judge("C03", "walk-short", "after a reported allocation failure the repeated getnext ended the walk at %d of %d", i, MN); break; } }
+                            else vf_count("oom_completed_despite_failure", 1); }
                         if (!r) break;
                         if (i >= MN) { judge("C03", "walk-extra", "walk returned too many"); break; }
                         bool ok = cmp_entry("C03", "walk-order", &obj, i); free(obj.name); free(obj.data); if (!ok) break; i++; }
-                    if (!abandon && !reported && i != MN) judge("C03", "walk-short", "walk under injected failure ended after %d of %d without reporting ENOMEM", i, MN);
+                    if (!abandon && i != MN) judge("C03", "walk-short", "walk with one injected (and retried) allocation failure delivered %d of %d keys", i, MN);
+                    (void)reported;
                 } else { vf_oom_k = k; vf_oom_all = all; oom_do(o, id); }
                 vf_count("evaluations", 1); vf_count("fault_positions_injected", 1);
                 vf_distinct("distinct", (structure_check(false) ^ USALT) * 4099 + (uint64_t)(o * 64 + id) * 64 + (uint64_t)k * 2 + (uint64_t)all);
